@@ -287,16 +287,18 @@ ExactDisable(cfgB, cfgV, c, ev) ==
 \* Output-level exactness (DESIGN Appendix D): the error-severity diagnostics *printed* under cfgV are those printed
 \* under cfgB minus removals, plus only the generated unused-ignore / ignore-without-code errors (and once-only
 \* messages, which are program-level).  NewErrors is the set of offenders.
+NewErrorsIn(g, sB, sV, onceMsgs) ==
+  LET setB == Range(sB)
+  IN {[f |-> g, o |-> sV[k]] : k \in {j \in 1..Len(sV) :
+         /\ sV[j].sev = "error"
+         /\ sV[j].code \notin {"unused-ignore", "ignore-without-code"}
+         /\ sV[j].msg \notin onceMsgs
+         /\ sV[j] \notin setB}}
 NewErrors(cfgB, cfgV, ev) ==
   LET foB == FileOut(Run(cfgB, ev))
       foV == FileOut(Run(cfgV, ev))
       onceMsgs == {ev[i].r.msg : i \in {j \in 1..Len(ev) : ev[j].t = "report" /\ ev[j].r.once}}
-  IN UNION {{[f |-> g, o |-> foV[g][k]] : k \in {k \in 1..Len(foV[g]) :
-                 LET o == foV[g][k] IN
-                 /\ o.sev = "error"
-                 /\ o.code \notin {"unused-ignore", "ignore-without-code"}
-                 /\ o.msg \notin onceMsgs
-                 /\ \A k2 \in 1..Len(foB[g]) : foB[g][k2] # o}} : g \in DOMAIN cfgB}
+  IN UNION {NewErrorsIn(g, foB[g], foV[g], onceMsgs) : g \in DOMAIN cfgB}
 \* remove_duplicates hides a second report with the same text on the same line even when its code differs; when the
 \* first is suppressed the second becomes visible.  Sequences without such pairs:
 NoCrossCodeDups(ev) ==
